@@ -146,6 +146,12 @@ def _run(ctx: Ctx) -> Result:
         lf = rng.choice(flagsets)
         wf = rng.choice([f for f in flagsets if int(f, 16) & ~int(lf, 16) == 0])
         bad_flags = [f for f in flagsets if int(f, 16) & ~int(lf, 16)]
+        if it % 9 == 4:
+            # the flags exclude every sigfield that is present: the signature is over the empty message - a message like any other
+            ks_ = sorted(rng.sample(range(1, 9), rng.choice([1, 1, 2])))
+            sf = {f'sigfield{k_}': V.rbytes(rng, rng.choice([1, 6])) for k_ in ks_}
+            lf = wf = '%02x' % sum(1 << (k_ - 1) for k_ in ks_)
+            bad_flags = [f for f in flagsets if int(f, 16) & ~int(lf, 16)]
         code, prefix = committed_scripts(T, rng, sf)
         if it % 5 == 2:      # a committed script of exactly 32 bytes (the length of a hash / a key)
             code, prefix = MARK + push_(V.rbytes(rng, 21)) + bytes([6, 1]), b''
